@@ -186,6 +186,29 @@ class PyMember(_enum.Enum):
 
 
 PY_ENUM_MEMBERS = list(PyMember)
+
+
+class CallableToken(object):
+    """An internal enum value that happens to be callable (a strategy object, a class, a function are values like
+    any other): handing it on is not calling it."""
+
+    def __init__(self, label):
+        self.label = label
+
+    def __call__(self, *a, **kw):
+        return "called:%s" % self.label
+
+    def __repr__(self):
+        return "CallableToken(%r)" % self.label
+
+    def __eq__(self, other):
+        return isinstance(other, CallableToken) and other.label == self.label
+
+    def __hash__(self):
+        return hash(("CallableToken", self.label))
+
+
+CALLABLE_TOKENS = [CallableToken("t%d" % i) for i in range(4)]
 VANISH = "value the serialiser maps to null"
 HOSTILE_ARGUMENT_NAMES = ["func", "self", "fn", "func", "self", "fn", "func", "self", "args", "kwargs", "cls", "key", "value", "node", "nodes", "default",
                           "type", "name", "resolver", "executor", "runtime", "then", "else_", "path", "field"]
@@ -311,7 +334,8 @@ class SchemaGen(object):
                     val = "%s_V%d" % (e.name.upper(), (i + 1) % n_values)
                 elif coded:
                     # python Enum members are internal values too (EnumType.from_python_enum)
-                    val = rng.choice([i, (e.name, i), "internal_%d" % i, float(i) + 0.5, PY_ENUM_MEMBERS[i % len(PY_ENUM_MEMBERS)]])
+                    val = rng.choice([i, (e.name, i), "internal_%d" % i, float(i) + 0.5, PY_ENUM_MEMBERS[i % len(PY_ENUM_MEMBERS)],
+                                      CALLABLE_TOKENS[i % len(CALLABLE_TOKENS)]])
                 e.values.append(SEnumValue(nm, val, self.desc(0.2), self.deprecation()))
             e.coded = coded
         for _ in range(rng.randint(0, 2)):
